@@ -27,6 +27,18 @@ func Graph(req *Request) *GraphRes {
 	return &GraphRes{OK: ok, Cycle: cycle}
 }
 
+// Label answers a label request with the attribute text internal/dot composes.
+func Label(req *Request) interface{} {
+	t, ok := pool.Type(req.Ty)
+	if !ok || t.String() != req.TStr {
+		return FatalRes("bad-request", fmt.Sprintf("label: type %d is not %q", req.Ty, req.TStr))
+	}
+	if req.Who == "group" {
+		return &LabelRes{Text: dig.VerifGroupAttributes(t, req.Name, req.Err)}
+	}
+	return &LabelRes{Text: dig.VerifResultAttributes(t, req.Name, req.Group)}
+}
+
 // scope is either the root container or a child scope.
 type scope interface {
 	Provide(interface{}, ...dig.ProvideOption) error
